@@ -209,6 +209,22 @@ func (p *Program) normalise() {
 	}
 	norm := ssa.NewNormalizer(pol)
 	norm.NonNil = NonNil
+	norm.Uses = map[*ssa.Function]int{}
+	{
+		var rands []*ssa.Value
+		for _, g := range p.AllFns {
+			for _, b := range g.Blocks {
+				for _, ins := range b.Instrs {
+					rands = ins.Operands(rands[:0])
+					for _, r := range rands {
+						if f, ok := (*r).(*ssa.Function); ok {
+							norm.Uses[f]++
+						}
+					}
+				}
+			}
+		}
+	}
 	for _, fn := range p.AllFns {
 		if fn.Parent() == nil {
 			norm.Normalize(fn)
